@@ -183,11 +183,31 @@ theorem round_mul_err (x y : ℚ) (hp : 0 < x * y) (hn : pow2 (-1022) ≤ x * y)
     _ ≤ |((roundAway (mul x y) : ℤ) : ℚ) - mul x y| + |mul x y - x * y| := abs_add_le _ _
     _ ≤ 1 / 2 + x * y / 2 ^ 53 := add_le_add h1 h2
 
-/-- **Quota accuracy.** For a positive cpu limit (product in the normal float range) the quota is
-the limit times the period rounded to the nearest unit. -/
-theorem quotaOf_near (cpu : ℚ) (hc : 0 < cpu) (hn : pow2 (-1022) ≤ cpu * 100000) :
+/-- a cpu limit below 10^7 cores keeps the float product far inside the int64 range -/
+theorem quota_in_range (cpu : ℚ) (hc : 0 < cpu) (hn : pow2 (-1022) ≤ cpu * 100000) (hb : cpu < 10000000) :
+    mul cpu 100000 < 9223372036854775808 := by
+  have hp : 0 < cpu * 100000 := by positivity
+  have hmul : mul cpu 100000 = roundPos (cpu * 100000) := by
+    unfold mul roundF64
+    simp [not_lt.mpr hp.le]
+  have h2 := roundPos_err (cpu * 100000) hp hn
+  rw [← hmul] at h2
+  have h3 := (abs_le.mp h2).2
+  have h4 : cpu * 100000 / 2 ^ 53 ≤ cpu * 100000 := by
+    apply div_le_self hp.le; norm_num
+  linarith
+
+theorem quotaOf_eq (cpu : ℚ) (hc : 0 < cpu) (hn : pow2 (-1022) ≤ cpu * 100000) (hb : cpu < 10000000) :
+    quotaOf cpu = roundAway (mul cpu 100000) := by
+  unfold quotaOf int64OfRounded
+  simp [quota_in_range cpu hc hn hb]
+
+/-- **Quota accuracy.** For a positive cpu limit below 10^7 cores (product in the normal float range,
+int64 conversion in range) the quota is the limit times the period rounded to the nearest unit. -/
+theorem quotaOf_near (cpu : ℚ) (hc : 0 < cpu) (hn : pow2 (-1022) ≤ cpu * 100000) (hb : cpu < 10000000) :
     QuotaNear (quotaOf cpu) cpu := by
-  unfold QuotaNear quotaOf
+  rw [quotaOf_eq cpu hc hn hb]
+  unfold QuotaNear
   rw [absR_eq_abs]
   have hp : 0 < cpu * 100000 := by positivity
   have := round_mul_err cpu 100000 hp hn
@@ -196,16 +216,22 @@ theorem quotaOf_near (cpu : ℚ) (hc : 0 < cpu) (hn : pow2 (-1022) ≤ cpu * 100
   linarith
 
 /-- … hence exact on the decimal grid: if the (float) limit times the period is within 1/4 of an
-integer `k` (true for every decimal limit with up to five decimals) and below 2^50, the quota is `k`. -/
+integer `k` (true for every decimal limit with up to five decimals) and the limit is below 10^7 cores,
+the quota is `k`. -/
 theorem quotaOf_exact (cpu : ℚ) (k : ℤ) (hc : 0 < cpu) (hn : pow2 (-1022) ≤ cpu * 100000)
-    (hk : |cpu * 100000 - (k : ℚ)| ≤ 1 / 4) (hb : cpu * 100000 ≤ 2 ^ 50) : quotaOf cpu = k := by
+    (hk : |cpu * 100000 - (k : ℚ)| ≤ 1 / 4) (hlt7 : cpu < 10000000) : quotaOf cpu = k := by
   have hp : 0 < cpu * 100000 := by positivity
+  have hb : cpu * 100000 ≤ 2 ^ 50 := by
+    have : cpu * 100000 < 10000000 * 100000 := by nlinarith
+    have h2 : (10000000 : ℚ) * 100000 ≤ 2 ^ 50 := by norm_num
+    linarith
+  have hq := quotaOf_eq cpu hc hn hlt7
   have h1 := round_mul_err cpu 100000 hp hn
   have h3 : cpu * 100000 / 2 ^ 53 ≤ 1 / 8 := by
     rw [div_le_iff₀ (by positivity)]; calc cpu * 100000 ≤ 2 ^ 50 := hb
       _ = 1 / 8 * 2 ^ 53 := by norm_num
   have hlt : |((quotaOf cpu : ℤ) : ℚ) - (k : ℚ)| < 1 := by
-    unfold quotaOf
+    rw [hq]
     calc |((roundAway (mul cpu 100000) : ℤ) : ℚ) - (k : ℚ)|
         = |(((roundAway (mul cpu 100000) : ℤ) : ℚ) - cpu * 100000) + (cpu * 100000 - (k : ℚ))| := by ring_nf
       _ ≤ |((roundAway (mul cpu 100000) : ℤ) : ℚ) - cpu * 100000| + |cpu * 100000 - (k : ℚ)| := abs_add_le _ _
